@@ -100,6 +100,15 @@ def getattr_static(obj, attr, default=_sentinel):
 
     klass_result = _check_class(klass, attr)
 
+    if obj is klass:
+        # For types the metaclass is what the class is for instances: A
+        # get/set descriptor of the metaclass has priority over everything.
+        metaclass_result = _check_class(type(klass), attr)
+        if metaclass_result is not _sentinel \
+                and _safe_hasattr(metaclass_result, '__get__') \
+                and _safe_is_data_descriptor(metaclass_result):
+            return metaclass_result, True
+
     if instance_result is not _sentinel and klass_result is not _sentinel:
         if _safe_hasattr(klass_result, '__get__') \
                 and _safe_is_data_descriptor(klass_result):
